@@ -657,7 +657,10 @@ func runConform(b *built, prop string, p part, tier string) (partReport, []viola
 	cmd := exec.Command(b.worker, "-test.run", "^TestConformance$", "-test.timeout", "600s")
 	tmp := filepath.Join(b.dir, "tmp")
 	os.MkdirAll(tmp, 0o755)
-	cmd.Env = append(os.Environ(), "VERIF_CONFORM="+p.Scen, "TMPDIR="+tmp)
+	// GOMAXPROCS=1: the scenario bodies keep their observations in a plain map (x.Data), written from several
+	// harness goroutines; inside the bubble only one goroutine runs at a time, free-running they must not run
+	// in parallel either (the Go scheduler still interleaves them, time and sockets are real)
+	cmd.Env = append(os.Environ(), "VERIF_CONFORM="+p.Scen, "TMPDIR="+tmp, "GOMAXPROCS=1")
 	cmd.Dir = b.dir
 	errf, _ := os.Create(filepath.Join(b.dir, "conform.stderr"))
 	cmd.Stderr = errf
